@@ -820,10 +820,9 @@ def _run_rest(ctx, pool, rb, rm):
     try:
         cfg, cfg_std = "MC_SchemaStore.cfg", "MC_SchemaStore_standard.cfg"
         if not quick:
-            cfg = _cfg_variant("MC_SchemaStore_d3.cfg", [("MaxEdits = 2", "MaxEdits = 3")])
-            made.append(cfg)
-            cfg_std = _cfg_variant("MC_SchemaStore_standard_d3.cfg", [("MaxEdits = 2", "MaxEdits = 3"), ('MODE = "partnered"', 'MODE = "standard"')])
-            made.append(cfg_std)
+            # variants live in this run's scratch directory (nothing is written into specs/)
+            cfg = ctx.cfg("MC_SchemaStore.cfg", ("MaxEdits = 2", "MaxEdits = 3"))
+            cfg_std = ctx.cfg("MC_SchemaStore.cfg", ("MaxEdits = 2", "MaxEdits = 3"), ('MODE = "partnered"', 'MODE = "standard"'))
         r = ctx.tlc("MC_SchemaStore", cfg, workers=16, coverage=True, timeout=3000,
                     label="design: RoundTrip, FormatsAgree, MultiMergeRefuses, WriterSelects, XmlDeclarative; partnered library, <= %d edits" % depth)
         _extra_coverage(ctx, r)
